@@ -26,6 +26,9 @@ def atom_strategy(allow_special):
         "special": st.sampled_from([0, 0, 1, 2, 3]) if allow_special else st.just(0),
         "occ": st.one_of(S.fl(0.01, 1.0), st.just(1.0), st.just(0.0)) if allow_special else st.one_of(S.fl(0.01, 1.0), st.just(1.0)),
         "adp": st.sampled_from(["Uiso", "Uani", "none"]), "uiso": S.fl(0.002, 0.1),
+        # one atom in eight has a slightly negative Uiso / a non-positive-definite Uani (as refinements do produce): the
+        # Debye-Waller factor is the same expression exp(-h.beta.h), now above 1 for some hkl
+        "npd": st.sampled_from([0] * 7 + [1]), "uneg": S.fl(0.0005, 0.005),
         "M": st.lists(S.fl(-0.03, 0.03), min_size=9, max_size=9), "eps": S.logfl(1e-5, 1e-3),
         "uform": st.sampled_from(["full", "full", "full", "diagonal", "equal-diagonal"]), "umag": st.sampled_from([1.0, 1.0, 1.0, 3.0, 10.0, 25.0]),
         "udiag": st.tuples(S.fl(0.003, 0.3), S.fl(0.003, 0.3), S.fl(0.003, 0.3)).map(list),
@@ -81,6 +84,8 @@ def build(case):
     astar = np.sqrt(np.diag(Gs))
     M = Model()
     M.g, M.cell, M.G, M.Gs = g, cell, G, Gs
+    M.npd = False
+    allow_npd = max([abs(int(x)) for h in case["hkl"] for x in h] + [0]) <= 8      # (exp(+h.beta.h) stays of order 1: the comparison tolerances are absolute)
     M.cell_arg = cell_arg
     al = [a for a in GR.aliases(no, ch) if ch != "rhombohedral" or a.lower().endswith("r")]
     name = al[case["op"] % len(al)] if case["op"] % 3 == 0 else g.name
@@ -125,11 +130,17 @@ def build(case):
             M.int_positions = True
         kind = a_["adp"]
         beta = None
+        npd = bool(a_.get("npd")) and allow_npd
         if kind == "Uiso":
-            adp = a_["uiso"]
+            adp = -a_.get("uneg", 0.001) if npd else a_["uiso"]
+            if npd:
+                M.npd = True
         elif kind == "Uani":
-            Mm = np.array(a_["M"], float).reshape(3, 3) * a_.get("umag", 1.0)     # from gentle to strongly anisotropic motion
+            Mm = np.array(a_["M"], float).reshape(3, 3) * (1.0 if npd else a_.get("umag", 1.0))     # from gentle to strongly anisotropic motion
             beta = Mm @ Mm.T + a_["eps"] * np.eye(3)
+            if npd:
+                beta = beta - 0.8 * (np.trace(beta) / 3.0) * np.eye(3)       # some principal components negative
+                M.npd = True
             uform = a_.get("uform", "full")
             if uform != "full" and len(stab) == 1:
                 # tensors with exactly zero cross terms (as refined for many real structures), optionally U11 = U22 = U33
